@@ -1,5 +1,6 @@
 import TM.Notify
 import TM.Run
+import TM.Scrollback
 /-!
 # C10 — the frontend's shadow copy, refreshed only from the announcements, is exact
 
@@ -1966,6 +1967,800 @@ theorem keep_width3_needs_invAlong_example :
 
 end Examples
 
+/-! ## 7. ScrollLines: the rows that leave the main screen through the top (`TM/Scrollback.lean`)
+
+Since fix 715b710 `scroll(y1, y2, dy)` calls `ScrollLines(min(-dy, y2+1))` when `y1 = 0`, `dy < 0`
+and the buffer is the main one, just before the first rows are overwritten. `TM/Scrollback.lean`
+counts those rows for every place a token reaches `Scr.scroll` (`Scr.scrollOff`, `Scr.lineDownOff`,
+`Scr.putOff`, `Term.scrollOff`) and `Term.applyS` puts the announcement in front of the token's
+other events. This section proves that the counted rows are exactly the rows that disappear
+through the top, and that without an announcement nothing disappears through the top:
+
+* `Scr.scroll`: `scrollOff_le`, `scrollOff_pos_iff`, `scroll_transcript`, `scroll_row0_kept`,
+  `scroll_above_kept`, `scroll_down_rows`
+* `Scr.lineDown`: `lineDownOff_le_one`, `lineDownOff_pos_iff`, `lineDown_transcript`,
+  `lineDown_row0_kept`
+* `Scr.put` (early and late wrap; up to 2 rows): `putStart_spec`, `putOff_le_two`,
+  `putOff_pos_imp`, `put_transcript_rows`, `put_off_zero_rows`, `put_off_one_rows`, `put_row0_kept`
+* tokens: `scrollOff_alt`, `alt_keeps_main`, `scrollLines_announced_iff` (with `applyS_state`,
+  `applyS_events`, which hold by unfolding), `scroll_tokens_transcript` (LF, FF, IND, SU),
+  `dl_transcript`, `scroll_tokens_silent_row0` (LF, FF, IND, SU, DL), `text_transcript_rows`
+
+(`no_scrollLines_emitted_partial` above stays true of `Term.apply`, whose events do not include the
+announcement; it is used here to show that `Term.applyS` announces nothing else.) -/
+
+namespace Lemmas
+
+/-- rows of the grid after an effective `Scr.scroll`, pointwise -/
+theorem scroll_getElem? (s : Scr) (a b : Nat) (d : Int) (hg : s.grid.length = s.h)
+    (hc : ¬ (a > b ∨ b ≥ s.h)) (y : Nat) :
+    (s.scroll a b d).grid[y]? =
+      if y < a then s.grid[y]? else if y ≤ b then (scrollMid s a b d)[y - a]? else s.grid[y]? := by
+  rw [scroll_eq s a b d hc]
+  have hml := scrollMid_length s a b d hg hc
+  simp only [List.getElem?_append, List.length_append, List.length_take, hml, hg,
+    List.getElem?_take, List.getElem?_drop]
+  have m1 : min a s.h = a := by omega
+  rw [m1]
+  by_cases h1 : y < a
+  · have : y < a + (b - a + 1) := by omega
+    simp [h1, this]
+  · by_cases h2 : y ≤ b
+    · have : y < a + (b - a + 1) := by omega
+      simp [h1, h2, this]
+    · have h3 : ¬ y < a + (b - a + 1) := by omega
+      simp only [h1, h2, h3, if_false]
+      congr 1; omega
+
+/-- an upward scroll of `[0,b]`, pointwise: rows move up by `k`, the last `k` become blank -/
+theorem scrollMid_up (s : Scr) (b : Nat) (d : Int) (hd : d < 0) :
+    scrollMid s 0 b d = (s.grid.take (b + 1)).drop (min d.natAbs (b + 1)) ++
+      List.replicate (min d.natAbs (b + 1)) (blankRow s.w s.sty) := by
+  unfold scrollMid
+  have : ¬ d ≥ 0 := by omega
+  simp [this]
+
+theorem scrollOff_zero_of_nonneg (s : Scr) (y1 y2 : Nat) (d : Int) (hd : 0 ≤ d) :
+    s.scrollOff y1 y2 d = 0 := by
+  unfold Scr.scrollOff
+  split
+  · rfl
+  · rw [if_neg (by omega)]
+
+/-- a scroll by 0 rows changes nothing -/
+theorem scroll_zero (s : Scr) (a b : Nat) : s.scroll a b 0 = s := by
+  by_cases hc : a > b ∨ b ≥ s.h
+  · exact scroll_noop s a b 0 hc
+  · rw [scroll_eq s a b 0 hc]
+    have : scrollMid s a b 0 = (s.grid.drop a).take (b - a + 1) := by
+      unfold scrollMid; simp [List.take_take]
+    rw [this]
+    have e : s.grid.drop (b + 1) = (s.grid.drop a).drop (b - a + 1) := by
+      rw [List.drop_drop]; congr 1; omega
+    rw [e, List.append_assoc, List.take_append_drop, List.take_append_drop]
+
+end Lemmas
+open Lemmas
+
+/-- **C10 (5a) — the announced count never exceeds the scrolled range.** -/
+theorem scrollOff_le (s : Scr) (y1 y2 : Nat) (d : Int) : s.scrollOff y1 y2 d ≤ y2 + 1 := by
+  unfold Scr.scrollOff
+  split
+  · omega
+  · split <;> omega
+
+/-- **C10 (5a') — when something is announced**: exactly for an effective upward scroll of a range
+    that starts on row 0. -/
+theorem scrollOff_pos_iff (s : Scr) (y1 y2 : Nat) (d : Int) :
+    0 < s.scrollOff y1 y2 d ↔ (y1 = 0 ∧ y2 < s.h ∧ d < 0) := by
+  unfold Scr.scrollOff
+  split
+  · omega
+  · split <;> omega
+
+/-- the count of an effective upward scroll of `[0, y2]` (helper) -/
+theorem scrollOff_eq (s : Scr) (y2 : Nat) (d : Int) (h2 : y2 < s.h) (hd : d < 0) :
+    s.scrollOff 0 y2 d = min d.natAbs (y2 + 1) := by
+  unfold Scr.scrollOff
+  rw [if_neg (by omega), if_pos ⟨rfl, hd⟩]
+
+/-- **C10 (5b) — nothing is lost when the announced rows are kept.** For an upward scroll of the
+    range `[0, y2]` (`k` rows announced): the `k` announced rows followed by the range after the
+    scroll are the range before the scroll followed by `k` blank rows. So the announced rows are
+    exactly the rows that leave, and they leave through the top in order. -/
+theorem scroll_transcript (s : Scr) (y2 : Nat) (d : Int) (hg : s.grid.length = s.h)
+    (h2 : y2 < s.h) (hd : d ≤ 0) :
+    s.grid.take (s.scrollOff 0 y2 d) ++ (s.scroll 0 y2 d).grid.take (y2 + 1) =
+      s.grid.take (y2 + 1) ++ List.replicate (s.scrollOff 0 y2 d) (blankRow s.w s.sty) := by
+  by_cases hz : d = 0
+  · rw [hz, scroll_zero, scrollOff_zero_of_nonneg s 0 y2 0 (by omega)]; simp
+  have hd : d < 0 := by omega
+  have hc : ¬ (0 > y2 ∨ y2 ≥ s.h) := by omega
+  rw [scrollOff_eq s y2 d h2 hd, scroll_eq s 0 y2 d hc]
+  have hml := scrollMid_length s 0 y2 d hg hc
+  simp only [List.take_zero, List.nil_append]
+  have e1 : (scrollMid s 0 y2 d ++ s.grid.drop (y2 + 1)).take (y2 + 1) = scrollMid s 0 y2 d :=
+    List.take_left' (by omega)
+  rw [e1, scrollMid_up s y2 d hd, ← List.append_assoc]
+  congr 1
+  have : s.grid.take (min d.natAbs (y2 + 1)) =
+      (s.grid.take (y2 + 1)).take (min d.natAbs (y2 + 1)) := by
+    rw [List.take_take]; congr 1; omega
+  rw [this, List.take_append_drop]
+
+
+namespace Lemmas
+
+/-- rows above the scrolled range stay -/
+theorem scroll_above (s : Scr) (a b : Nat) (d : Int) (hg : s.grid.length = s.h) (y : Nat)
+    (hy : y < a) : (s.scroll a b d).grid[y]? = s.grid[y]? := by
+  by_cases hc : a > b ∨ b ≥ s.h
+  · rw [scroll_noop s a b d hc]
+  · rw [scroll_getElem? s a b d hg hc, if_pos hy]
+
+/-- rows below the scrolled range stay -/
+theorem scroll_below (s : Scr) (a b : Nat) (d : Int) (hg : s.grid.length = s.h) (y : Nat)
+    (hy : b < y) : (s.scroll a b d).grid[y]? = s.grid[y]? := by
+  by_cases hc : a > b ∨ b ≥ s.h
+  · rw [scroll_noop s a b d hc]
+  · rw [scroll_getElem? s a b d hg hc, if_neg (by omega), if_neg (by omega)]
+
+/-- an upward scroll of `[0,b]`: old row `y ≥ k` is new row `y - k` -/
+theorem scroll_up_row (s : Scr) (b : Nat) (d : Int) (hg : s.grid.length = s.h) (hb : b < s.h)
+    (hd : d < 0) (y : Nat) (h1 : s.scrollOff 0 b d ≤ y) (h2 : y ≤ b) :
+    (s.scroll 0 b d).grid[y - s.scrollOff 0 b d]? = s.grid[y]? := by
+  have hc : ¬ (0 > b ∨ b ≥ s.h) := by omega
+  rw [scrollOff_eq s b d hb hd] at h1 ⊢
+  rw [scroll_getElem? s 0 b d hg hc, if_neg (by omega), if_pos (by omega), scrollMid_up s b d hd]
+  simp only [Nat.sub_zero]
+  rw [List.getElem?_append_left (by
+    simp only [List.length_drop, List.length_take, hg]; omega)]
+  rw [List.getElem?_drop, List.getElem?_take, if_pos (by omega)]
+  congr 1; omega
+
+/-- … and the last `k` rows of the range are blank -/
+theorem scroll_up_blank (s : Scr) (b : Nat) (d : Int) (hg : s.grid.length = s.h) (hb : b < s.h)
+    (hd : d < 0) (y : Nat) (h1 : b < y + s.scrollOff 0 b d) (h2 : y ≤ b) :
+    (s.scroll 0 b d).grid[y]? = some (blankRow s.w s.sty) := by
+  have hc : ¬ (0 > b ∨ b ≥ s.h) := by omega
+  rw [scrollOff_eq s b d hb hd] at h1
+  rw [scroll_getElem? s 0 b d hg hc, if_neg (by omega), if_pos (by omega), scrollMid_up s b d hd]
+  simp only [Nat.sub_zero]
+  rw [List.getElem?_append_right (by
+    simp only [List.length_drop, List.length_take, hg]; omega)]
+  rw [List.getElem?_replicate, if_pos (by
+    simp only [List.length_drop, List.length_take, hg]; omega)]
+
+end Lemmas
+open Lemmas
+
+/-- **C10 (5c) — no announcement, no loss.** When `Scr.scroll` announces nothing and is not a
+    downward scroll, the top row of the screen is untouched. -/
+theorem scroll_row0_kept (s : Scr) (y1 y2 : Nat) (d : Int) (hg : s.grid.length = s.h)
+    (h0 : s.scrollOff y1 y2 d = 0) (hd : d ≤ 0) :
+    (s.scroll y1 y2 d).grid[0]? = s.grid[0]? := by
+  by_cases hc : y1 > y2 ∨ y2 ≥ s.h
+  · rw [scroll_noop s y1 y2 d hc]
+  · by_cases hz : d = 0
+    · rw [hz, scroll_zero s y1 y2]
+    · by_cases h1 : y1 = 0
+      · exfalso
+        have : 0 < s.scrollOff y1 y2 d := (scrollOff_pos_iff s y1 y2 d).2 ⟨h1, by omega, by omega⟩
+        omega
+      · exact scroll_above s y1 y2 d hg 0 (by omega)
+
+/-- rows above the scrolled range are never touched (whatever the direction) -/
+theorem scroll_above_kept (s : Scr) (y1 y2 : Nat) (d : Int) (hg : s.grid.length = s.h) (y : Nat)
+    (hy : y < y1) : (s.scroll y1 y2 d).grid[y]? = s.grid[y]? := scroll_above s y1 y2 d hg y hy
+
+/-! ### `Scr.lineDown` -/
+
+/-- **C10 (5e) — `lineDown` announces at most one row.** -/
+theorem lineDownOff_le_one (s : Scr) : s.lineDownOff ≤ 1 := by
+  unfold Scr.lineDownOff Scr.scrollOff
+  split
+  · split
+    · omega
+    · split <;> omega
+  · omega
+
+/-- **C10 (5e') — … and exactly when the cursor stands on the bottom margin of a region that starts
+    on row 0.** -/
+theorem lineDownOff_pos_iff (s : Scr) :
+    0 < s.lineDownOff ↔ (s.cy = s.bot ∧ s.top = 0 ∧ s.bot < s.h) := by
+  unfold Scr.lineDownOff
+  split
+  · rw [scrollOff_pos_iff]; simp [*]
+  · simp [*]
+
+/-- **C10 (5e'') — `lineDown` (LF, FF, IND, both wraps of a text write), top margin on row 0**: the
+    announced rows followed by the region afterwards are the region before followed by as many
+    blank rows. No hypothesis on the cursor or the bottom margin. -/
+theorem lineDown_transcript (s : Scr) (hg : s.grid.length = s.h) (ht : s.top = 0) :
+    s.grid.take s.lineDownOff ++ s.lineDown.grid.take (s.bot + 1) =
+      s.grid.take (s.bot + 1) ++ List.replicate s.lineDownOff (blankRow s.w s.sty) := by
+  rw [lineDown_grid]
+  unfold Scr.lineDownOff
+  split
+  · rw [ht]
+    by_cases hb : s.bot < s.h
+    · exact scroll_transcript s s.bot (-1) hg hb (by omega)
+    · rw [scroll_noop s 0 s.bot (-1) (by omega)]
+      have : s.scrollOff 0 s.bot (-1) = 0 := by
+        unfold Scr.scrollOff; rw [if_pos (by omega)]
+      simp [this]
+  · simp
+
+/-- without an announcement `lineDown` leaves the top row alone -/
+theorem lineDown_row0_kept (s : Scr) (hg : s.grid.length = s.h) (h0 : s.lineDownOff = 0) :
+    s.lineDown.grid[0]? = s.grid[0]? := by
+  rw [lineDown_grid]
+  unfold Scr.lineDownOff at h0
+  split
+  · rw [if_pos ‹_›] at h0
+    exact scroll_row0_kept s s.top s.bot (-1) hg h0 (by omega)
+  · rfl
+
+namespace Lemmas
+
+/-- `lineDown` with the top margin on row 0, pointwise: old row `y ≥ k` of the region is new row
+    `y - k` (`k` the announced count), rows below the region stay -/
+theorem lineDown_rows (s : Scr) (hg : s.grid.length = s.h) (ht : s.top = 0) :
+    (∀ y, s.lineDownOff ≤ y → y ≤ s.bot → s.lineDown.grid[y - s.lineDownOff]? = s.grid[y]?) ∧
+    (∀ y, s.bot < y → s.lineDown.grid[y]? = s.grid[y]?) := by
+  rw [lineDown_grid]
+  unfold Scr.lineDownOff
+  split
+  · rw [ht]
+    by_cases hb : s.bot < s.h
+    · exact ⟨fun y h1 h2 => scroll_up_row s s.bot (-1) hg hb (by omega) y h1 h2,
+        fun y hy => scroll_below s 0 s.bot (-1) hg y hy⟩
+    · rw [scroll_noop s 0 s.bot (-1) (by omega)]
+      have : s.scrollOff 0 s.bot (-1) = 0 := by
+        unfold Scr.scrollOff; rw [if_pos (by omega)]
+      simp [this]
+  · simp
+
+theorem lineDown_length (s : Scr) (hg : s.grid.length = s.h) : s.lineDown.grid.length = s.h := by
+  rw [lineDown_grid]
+  split
+  · by_cases hc : s.top > s.bot ∨ s.bot ≥ s.h
+    · rw [scroll_noop _ _ _ _ hc]; exact hg
+    · rw [scroll_eq _ _ _ _ hc]
+      simp only [List.length_append, List.length_take, List.length_drop,
+        scrollMid_length s _ _ _ hg hc, hg]
+      omega
+  · exact hg
+
+end Lemmas
+open Lemmas
+
+/-- **C10 (5d) — a downward scroll (IL, SD, RI) pushes nothing out through the top**: with
+    `k = min d (y2 - y1 + 1)`, every row `y` of the range with `y + k ≤ y2` is found `k` rows lower;
+    rows are lost only at the bottom of the range. -/
+theorem scroll_down_rows (s : Scr) (y1 y2 : Nat) (d : Int) (hg : s.grid.length = s.h)
+    (h2 : y2 < s.h) (hd : 0 ≤ d) (y : Nat) (ha : y1 ≤ y)
+    (hb : y + min d.natAbs (y2 - y1 + 1) ≤ y2) :
+    (s.scroll y1 y2 d).grid[y + min d.natAbs (y2 - y1 + 1)]? = s.grid[y]? := by
+  have hc : ¬ (y1 > y2 ∨ y2 ≥ s.h) := by omega
+  rw [scroll_getElem? s y1 y2 d hg hc, if_neg (by omega), if_pos hb]
+  unfold scrollMid
+  simp only [ge_iff_le, hd, if_true]
+  rw [List.getElem?_append_right (by simp only [List.length_replicate]; omega)]
+  simp only [List.length_replicate, List.getElem?_take, List.getElem?_drop]
+  rw [if_pos (by omega), if_pos (by omega)]
+  congr 1; omega
+
+/-! ### `Scr.put`: the early and the late wrap -/
+
+/-- `Scr.putStart` is the state `pre` of the decomposition `put_eq`: the state in which `Scr.put`
+    writes the character, so `Scr.putOff` talks about the scrolls `Scr.put` really performs. -/
+theorem putStart_spec (s : Scr) (w0 : Nat) : s.putStart w0 = pre s (effW s w0) := rfl
+
+/-- rows announced by the early wrap of `Scr.put` -/
+def putEarly (s : Scr) (w0 : Nat) : Nat :=
+  if s.cx + effW s w0 > s.w ∧ s.wrap = true then ({ s with cx := 0 } : Scr).lineDownOff else 0
+
+/-- rows announced by the late wrap of `Scr.put` -/
+def putLate (pol : WidePolicy) (s : Scr) (w0 : Nat) : Nat :=
+  if putX pol (s.putStart w0) (effW s w0) < (s.putStart w0).w then 0
+  else if (s.putStart w0).wrap then (s.putStart w0).lineDownOff else 0
+
+/-- `Scr.putOff` is the sum of the two wraps (by unfolding) -/
+theorem putOff_eq (pol : WidePolicy) (s : Scr) (w0 : Nat) :
+    s.putOff pol w0 = putEarly s w0 + putLate pol s w0 := rfl
+
+/-- **C10 (5f') — a text write announces at most two rows** (one per wrap; 2 is attained:
+    `ScrollExamples`, a double-width character on a screen 2 columns wide). -/
+theorem putOff_le_two (pol : WidePolicy) (s : Scr) (w0 : Nat) : s.putOff pol w0 ≤ 2 := by
+  rw [putOff_eq]
+  have h1 : putEarly s w0 ≤ 1 := by
+    unfold putEarly; split
+    · exact lineDownOff_le_one _
+    · omega
+  have h2 : putLate pol s w0 ≤ 1 := by
+    unfold putLate; split
+    · omega
+    · split
+      · exact lineDownOff_le_one _
+      · omega
+  omega
+
+/-- **C10 (5f'') — a text write announces something only with autowrap on and the top margin on
+    row 0.** No invariant needed. -/
+theorem putOff_pos_imp (pol : WidePolicy) (s : Scr) (w0 : Nat) (h : 0 < s.putOff pol w0) :
+    s.top = 0 ∧ s.wrap = true := by
+  rw [putOff_eq] at h
+  obtain ⟨_, _, f3, _, f5, _⟩ := pre_fields s (effW s w0)
+  by_cases he : 0 < putEarly s w0
+  · unfold putEarly at he
+    split at he
+    · next hc => exact ⟨((lineDownOff_pos_iff _).1 he).2.1, hc.2⟩
+    · omega
+  · have hl : 0 < putLate pol s w0 := by omega
+    unfold putLate at hl
+    rw [putStart_spec] at hl
+    split at hl
+    · omega
+    · split at hl
+      · next hw => exact ⟨f3 ▸ ((lineDownOff_pos_iff _).1 hl).2.1, f5 ▸ hw⟩
+      · omega
+
+namespace Lemmas
+
+theorem pre_length (s : Scr) (w : Nat) (hg : s.grid.length = s.h) : (pre s w).grid.length = s.h := by
+  unfold pre
+  split
+  · split
+    · exact lineDown_length ({ s with cx := 0 } : Scr) hg
+    · exact hg
+  · exact hg
+
+/-- the early wrap, pointwise -/
+theorem pre_rows (s : Scr) (w0 : Nat) (hg : s.grid.length = s.h) (ht : s.top = 0) :
+    (∀ y, putEarly s w0 ≤ y → y ≤ s.bot →
+      (pre s (effW s w0)).grid[y - putEarly s w0]? = s.grid[y]?) ∧
+    (∀ y, s.bot < y → (pre s (effW s w0)).grid[y]? = s.grid[y]?) := by
+  unfold pre putEarly
+  by_cases h1 : s.cx + effW s w0 > s.w
+  · by_cases h2 : s.wrap = true
+    · rw [if_pos h1, if_pos h2, if_pos ⟨h1, h2⟩]
+      exact lineDown_rows ({ s with cx := 0 } : Scr) hg ht
+    · rw [if_pos h1, if_neg h2, if_neg (fun h => h2 h.2)]
+      simp
+  · rw [if_neg h1, if_neg (fun h => h1 h.1)]
+    simp
+
+/-- the late wrap, pointwise; `k` is the count computed on a state with the same cursor row,
+    margins and height -/
+theorem finish_rows (s2 : Scr) (x : Nat) (hg : s2.grid.length = s2.h) (ht : s2.top = 0) :
+    let k := if x < s2.w then 0 else if s2.wrap then s2.lineDownOff else 0
+    (∀ y, k ≤ y → y ≤ s2.bot → (finish s2 x).grid[y - k]? = s2.grid[y]?) ∧
+    (∀ y, s2.bot < y → (finish s2 x).grid[y]? = s2.grid[y]?) := by
+  unfold finish
+  by_cases h1 : x < s2.w
+  · simp [h1]
+  · by_cases h2 : s2.wrap = true
+    · simp only [if_neg h1, if_pos h2]
+      exact lineDown_rows ({ s2 with cx := x - s2.w } : Scr) hg ht
+    · simp [h1, h2]
+
+end Lemmas
+open Lemmas
+
+/-- **C10 (5f) — text: the counted rows are exactly the rows that leave.** Top margin on row 0,
+    `n := s.putOff pol w0` rows announced (`n ≤ 2`: early wrap and late wrap), `c` the row the
+    character is written in, `e` the part of `n` announced by the early wrap:
+    * every old row `y` of the scroll region with `n ≤ y` is row `y - n` afterwards — except the
+      row `c + e` that receives the character — so only the first `n` rows leave;
+    * every row below the region other than the written one is unchanged. -/
+theorem put_transcript_rows (pol : WidePolicy) (s : Scr) (text : Bytes) (w0 : Nat)
+    (hinv : s.inv = true) (ht : s.top = 0) :
+    (∀ y, s.putOff pol w0 ≤ y → y ≤ s.bot → y ≠ (s.putStart w0).cy + putEarly s w0 →
+      (s.put pol text w0).grid[y - s.putOff pol w0]? = s.grid[y]?) ∧
+    (∀ y, s.bot < y → y ≠ (s.putStart w0).cy → (s.put pol text w0).grid[y]? = s.grid[y]?) := by
+  have hg : s.grid.length = s.h := (inv_shaped hinv).1
+  obtain ⟨f1, f2, f3, f4, f5, f6, f7⟩ := pre_fields s (effW s w0)
+  obtain ⟨p1, p2⟩ := pre_rows s w0 hg ht
+  have hl1 := pre_length s (effW s w0) hg
+  rw [put_eq, putOff_eq, putStart_spec]
+  have hlate : putLate pol s w0 =
+      (let s2 := (pre s (effW s w0)).setRow (pre s (effW s w0)).cy
+          (putRowOf pol (pre s (effW s w0)) (effText s text w0) (effW s w0))
+       if putX pol (pre s (effW s w0)) (effW s w0) < s2.w then 0
+       else if s2.wrap then s2.lineDownOff else 0) := rfl
+  have hfin := finish_rows ((pre s (effW s w0)).setRow (pre s (effW s w0)).cy
+          (putRowOf pol (pre s (effW s w0)) (effText s text w0) (effW s w0)))
+        (putX pol (pre s (effW s w0)) (effW s w0))
+        (by show (List.set _ _ _).length = _; rw [List.length_set, hl1]; exact f2.symm) (by show (pre s (effW s w0)).top = 0; rw [f3, ht])
+  simp only [] at hlate
+  rw [← hlate] at hfin
+  obtain ⟨q1, q2⟩ := hfin
+  generalize putLate pol s w0 = l at *
+  generalize putEarly s w0 = e at *
+  generalize putRowOf pol (pre s (effW s w0)) (effText s text w0) (effW s w0) = r' at *
+  generalize putX pol (pre s (effW s w0)) (effW s w0) = x at *
+  generalize pre s (effW s w0) = s1 at *
+  have hset : ∀ y, y ≠ s1.cy → (s1.setRow s1.cy r').grid[y]? = s1.grid[y]? := by
+    intro y hy
+    show (s1.grid.set s1.cy r')[y]? = _
+    rw [List.getElem?_set, if_neg (fun e => hy e.symm)]
+  have hb2 : (s1.setRow s1.cy r').bot = s.bot := f4
+  constructor
+  · intro y h1 h2 h3
+    have e1 : y - (e + l) = (y - e) - l := by omega
+    rw [e1, q1 (y - e) (by omega) (by rw [hb2]; omega), hset (y - e) (by omega)]
+    exact p1 y (by omega) h2
+  · intro y h1 h3
+    rw [q2 y (by rw [hb2]; exact h1), hset y h3]
+    exact p2 y h1
+
+/-- **C10 (5g) — text without announcement: no other row moves or changes.** -/
+theorem put_off_zero_rows (pol : WidePolicy) (s : Scr) (text : Bytes) (w0 : Nat)
+    (hinv : s.inv = true) (ht : s.top = 0) (h0 : s.putOff pol w0 = 0) :
+    ∀ y, y ≠ (s.putStart w0).cy → (s.put pol text w0).grid[y]? = s.grid[y]? := by
+  intro y hy
+  obtain ⟨a, b⟩ := put_transcript_rows pol s text w0 hinv ht
+  have he : putEarly s w0 = 0 := by rw [putOff_eq] at h0; omega
+  by_cases hb : y ≤ s.bot
+  · have := a y (by omega) hb (by omega)
+    rwa [h0] at this
+  · exact b y (by omega) hy
+
+/-- the rows that stay when one row is announced (`n = 1`: only the early or only the late wrap
+    scrolls): every other row of the region moves up by one -/
+theorem put_off_one_rows (pol : WidePolicy) (s : Scr) (text : Bytes) (w0 : Nat)
+    (hinv : s.inv = true) (ht : s.top = 0) (h1 : s.putOff pol w0 = 1) :
+    ∀ y, 1 ≤ y → y ≤ s.bot → y ≠ (s.putStart w0).cy + putEarly s w0 →
+      (s.put pol text w0).grid[y - 1]? = s.grid[y]? := by
+  intro y a b c
+  have := (put_transcript_rows pol s text w0 hinv ht).1 y (by omega) b c
+  rwa [h1] at this
+
+/-- **C10 (5h) — text without announcement, any margins: the top row is not lost.** If nothing is
+    announced and the character is not written in row 0, row 0 is what it was. -/
+theorem put_row0_kept (pol : WidePolicy) (s : Scr) (text : Bytes) (w0 : Nat)
+    (hinv : s.inv = true) (h0 : s.putOff pol w0 = 0) (hc : (s.putStart w0).cy ≠ 0) :
+    (s.put pol text w0).grid[0]? = s.grid[0]? := by
+  have hg : s.grid.length = s.h := (inv_shaped hinv).1
+  have hl1 := pre_length s (effW s w0) hg
+  obtain ⟨f1, f2, f3, f4, f5, f6, f7⟩ := pre_fields s (effW s w0)
+  rw [putOff_eq] at h0
+  have he : putEarly s w0 = 0 := by omega
+  have hl : putLate pol s w0 = 0 := by omega
+  rw [putStart_spec] at hc
+  -- early wrap
+  have hp : (pre s (effW s w0)).grid[0]? = s.grid[0]? := by
+    unfold putEarly at he
+    unfold pre
+    by_cases c1 : s.cx + effW s w0 > s.w
+    · by_cases c2 : s.wrap = true
+      · rw [if_pos ⟨c1, c2⟩] at he
+        rw [if_pos c1, if_pos c2]
+        exact lineDown_row0_kept ({ s with cx := 0 } : Scr) hg he
+      · rw [if_pos c1, if_neg c2]
+    · rw [if_neg c1]
+  rw [put_eq]
+  have hlate : putLate pol s w0 =
+      (let s2 := (pre s (effW s w0)).setRow (pre s (effW s w0)).cy
+          (putRowOf pol (pre s (effW s w0)) (effText s text w0) (effW s w0))
+       if putX pol (pre s (effW s w0)) (effW s w0) < s2.w then 0
+       else if s2.wrap then s2.lineDownOff else 0) := rfl
+  simp only [] at hlate
+  rw [hl] at hlate
+  generalize putRowOf pol (pre s (effW s w0)) (effText s text w0) (effW s w0) = r' at *
+  generalize putX pol (pre s (effW s w0)) (effW s w0) = x at *
+  generalize pre s (effW s w0) = s1 at *
+  have hset : (s1.setRow s1.cy r').grid[0]? = s1.grid[0]? := by
+    show (s1.grid.set s1.cy r')[0]? = _
+    rw [List.getElem?_set, if_neg hc]
+  have hg2 : (s1.setRow s1.cy r').grid.length = (s1.setRow s1.cy r').h := by
+    show (List.set _ _ _).length = _; rw [List.length_set, hl1]; exact f2.symm
+  rw [← hp, ← hset]
+  unfold finish
+  by_cases c1 : x < (s1.setRow s1.cy r').w
+  · rw [if_pos c1]
+  · by_cases c2 : (s1.setRow s1.cy r').wrap = true
+    · rw [if_neg c1, if_pos c2] at hlate
+      rw [if_neg c1, if_pos c2]
+      exact lineDown_row0_kept ({ s1.setRow s1.cy r' with cx := x - (s1.setRow s1.cy r').w } : Scr)
+        hg2 hlate.symm
+    · rw [if_neg c1, if_neg c2]
+
+/-! ### terminal level -/
+
+/-- **C10 (5n) — nothing is announced while the alternate screen is active** (it keeps no
+    scrollback), for every token. -/
+theorem scrollOff_alt (cw : Nat → Nat) (t : Term) (tok : Tok) (h : t.onAlt = true) :
+    t.scrollOff cw tok = 0 := by
+  cases tok <;> simp [Term.scrollOff, h]
+
+/-- `Term.applyS` changes the state as `Term.apply` does (by unfolding; helper) -/
+theorem applyS_state (cw : Nat → Nat) (t : Term) (tok : Tok) :
+    (t.applyS cw tok).1 = (t.apply cw tok).1 := rfl
+
+/-- the events of `Term.applyS`: the announcement, if any, FIRST — before the `RegionChanged` /
+    `CursorMoved` of the token, as in the code, where the rows are announced before they are
+    overwritten (by unfolding; helper) -/
+theorem applyS_events (cw : Nat → Nat) (t : Term) (tok : Tok) :
+    (t.applyS cw tok).2 =
+      (if t.scrollOff cw tok = 0 then [] else [Ev.scrollLines (t.scrollOff cw tok)]) ++
+        (t.apply cw tok).2 := rfl
+
+/-- **C10 (5o) — exactly the counted rows are announced.** `ScrollLines n` is among the events of a
+    token iff `n` is the (non-zero) count `Term.scrollOff` of that token in that state: one
+    announcement at most, none when the count is 0, never a different number. -/
+theorem scrollLines_announced_iff (cw : Nat → Nat) (t : Term) (tok : Tok) (n : Nat) :
+    Ev.scrollLines n ∈ (t.applyS cw tok).2 ↔ (n = t.scrollOff cw tok ∧ 0 < n) := by
+  rw [applyS_events, List.mem_append]
+  have hno : Ev.scrollLines n ∉ (t.apply cw tok).2 :=
+    fun h => no_scrollLines_emitted_partial cw t tok _ h n rfl
+  constructor
+  · rintro (h | h)
+    · split at h
+      · cases h
+      · simp only [List.mem_singleton, Ev.scrollLines.injEq] at h
+        omega
+    · exact absurd h hno
+  · rintro ⟨h1, h2⟩
+    left
+    rw [if_neg (by omega), h1]
+    simp
+
+namespace Lemmas
+
+theorem scr_main {t : Term} (h : t.onAlt = false) : t.scr = t.main := by
+  unfold Term.scr; rw [h]; rfl
+
+theorem setScr_main {t : Term} (h : t.onAlt = false) (s' : Scr) : (t.setScr s').main = s' := by
+  unfold Term.setScr; rw [h]; rfl
+
+theorem inv_bot {s : Scr} (h : s.inv = true) : s.grid.length = s.h ∧ s.bot < s.h := by
+  obtain ⟨_, _, c, _, _, _, _, _, _, d⟩ := (inv_iff s).1 h
+  exact ⟨c, d⟩
+
+/-- the main screen after LF / FF / IND / SU / DL on the main buffer, and the announced count -/
+theorem apply_lf (cw : Nat → Nat) (t : Term) (h : t.onAlt = false) :
+    (t.apply cw (.ctl 10)).1.main = ({ t.main with cx := 0 } : Scr).lineDown ∧
+    t.scrollOff cw (.ctl 10) = ({ t.main with cx := 0 } : Scr).lineDownOff := by
+  refine ⟨?_, ?_⟩
+  · show (t.setScr ({ t.scr with cx := 0 } : Scr).lineDown).main = _
+    rw [setScr_main h, scr_main h]
+  · show (if t.onAlt = true then 0 else ({ t.scr with cx := 0 } : Scr).lineDownOff) = _
+    rw [h, scr_main h]; rfl
+
+theorem apply_ff (cw : Nat → Nat) (t : Term) (h : t.onAlt = false) :
+    (t.apply cw (.ctl 12)).1.main = t.main.lineDown ∧
+    t.scrollOff cw (.ctl 12) = t.main.lineDownOff := by
+  refine ⟨?_, ?_⟩
+  · show (t.setScr t.scr.lineDown).main = _
+    rw [setScr_main h, scr_main h]
+  · show (if t.onAlt = true then 0 else t.scr.lineDownOff) = _
+    rw [h, scr_main h]; rfl
+
+theorem apply_ind (cw : Nat → Nat) (t : Term) (h : t.onAlt = false) :
+    (t.apply cw (.esc [] 0x44)).1.main = t.main.lineDown ∧
+    t.scrollOff cw (.esc [] 0x44) = t.main.lineDownOff := by
+  refine ⟨?_, ?_⟩
+  · show (t.setScr t.scr.lineDown).main = _
+    rw [setScr_main h, scr_main h]
+  · show (if t.onAlt = true then 0 else t.scr.lineDownOff) = _
+    rw [h, scr_main h]; rfl
+
+theorem apply_su (cw : Nat → Nat) (t : Term) (ps : List Int) (h : t.onAlt = false) :
+    (t.apply cw (.csi 0 ps true 0x53)).1.main = t.main.scroll t.main.top t.main.bot (-(p0 ps 1)) ∧
+    t.scrollOff cw (.csi 0 ps true 0x53) = t.main.scrollOff t.main.top t.main.bot (-(p0 ps 1)) := by
+  refine ⟨?_, ?_⟩
+  · show (t.setScr (t.scr.scroll t.scr.top t.scr.bot (-(p0 ps 1)))).main = _
+    rw [setScr_main h, scr_main h]
+  · simp [Term.scrollOff, h, scr_main h]
+
+theorem apply_dl (cw : Nat → Nat) (t : Term) (ps : List Int) (h : t.onAlt = false) :
+    (t.apply cw (.csi 0 ps true 0x4d)).1.main =
+      (if t.main.inRegion then t.main.scroll t.main.cy t.main.bot (-(p0 ps 1)) else t.main) ∧
+    t.scrollOff cw (.csi 0 ps true 0x4d) =
+      (if t.main.inRegion then t.main.scrollOff t.main.cy t.main.bot (-(p0 ps 1)) else 0) := by
+  refine ⟨?_, ?_⟩
+  · show (if t.scr.inRegion = true then
+        (t.setScr (t.scr.scroll t.scr.cy t.scr.bot (-(p0 ps 1))),
+          [Ev.region 0 t.scr.cy t.scr.w (t.scr.bot + 1) 2]) else (t, [])).1.main = _
+    rw [scr_main h]
+    split
+    · exact setScr_main h _
+    · rfl
+  · simp [Term.scrollOff, h, scr_main h]
+
+end Lemmas
+open Lemmas
+
+/-- **C10 (5i) — LF, FF, IND, SU on the main buffer: the announced rows are exactly the rows that
+    leave.** Top margin on row 0; `n` rows announced; the `n` announced rows followed by the
+    region after the token are the region before the token followed by `n` blank rows. (SU takes
+    a count `≥ 0`, which is all the parser produces; a negative count would scroll down.) -/
+theorem scroll_tokens_transcript (cw : Nat → Nat) (t : Term) (tok : Tok)
+    (htok : tok = .ctl 10 ∨ tok = .ctl 12 ∨ tok = .esc [] 0x44 ∨
+      ∃ ps, tok = .csi 0 ps true 0x53 ∧ 0 ≤ p0 ps 1)
+    (hm : t.onAlt = false) (hinv : t.main.inv = true) (ht : t.main.top = 0) :
+    t.main.grid.take (t.scrollOff cw tok) ++ (t.apply cw tok).1.main.grid.take (t.main.bot + 1) =
+      t.main.grid.take (t.main.bot + 1) ++
+        List.replicate (t.scrollOff cw tok) (blankRow t.main.w t.main.sty) := by
+  obtain ⟨hg, hb⟩ := inv_bot hinv
+  rcases htok with rfl | rfl | rfl | ⟨ps, rfl, hps⟩
+  · obtain ⟨a, b⟩ := apply_lf cw t hm
+    rw [a, b]
+    exact lineDown_transcript ({ t.main with cx := 0 } : Scr) hg ht
+  · obtain ⟨a, b⟩ := apply_ff cw t hm
+    rw [a, b]
+    exact lineDown_transcript t.main hg ht
+  · obtain ⟨a, b⟩ := apply_ind cw t hm
+    rw [a, b]
+    exact lineDown_transcript t.main hg ht
+  · obtain ⟨a, b⟩ := apply_su cw t ps hm
+    rw [a, b, ht]
+    exact scroll_transcript t.main t.main.bot _ hg hb (by omega)
+
+/-- **C10 (5j) — DL with the cursor on row 0** (top margin on row 0): as `scroll_tokens_transcript`. -/
+theorem dl_transcript (cw : Nat → Nat) (t : Term) (ps : List Int) (hps : 0 ≤ p0 ps 1)
+    (hm : t.onAlt = false) (hinv : t.main.inv = true) (ht : t.main.top = 0) (hcy : t.main.cy = 0) :
+    t.main.grid.take (t.scrollOff cw (.csi 0 ps true 0x4d)) ++
+        (t.apply cw (.csi 0 ps true 0x4d)).1.main.grid.take (t.main.bot + 1) =
+      t.main.grid.take (t.main.bot + 1) ++
+        List.replicate (t.scrollOff cw (.csi 0 ps true 0x4d)) (blankRow t.main.w t.main.sty) := by
+  obtain ⟨hg, hb⟩ := inv_bot hinv
+  obtain ⟨a, b⟩ := apply_dl cw t ps hm
+  have hr : t.main.inRegion = true := by simp [Scr.inRegion, ht, hcy]
+  rw [a, b, if_pos hr, if_pos hr, hcy]
+  exact scroll_transcript t.main t.main.bot _ hg hb (by omega)
+
+/-- **C10 (5k) — the upward-scrolling tokens without announcement lose nothing through the top.**
+    LF, FF, IND, SU, DL on the main buffer, any margins, any cursor position: when nothing is
+    announced, row 0 of the main screen is what it was. (Restricted to the tokens that can move
+    rows upwards; RI, IL, SD move rows away from the top, and every other non-text token changes
+    cells in place only — `changes_announced`.) -/
+theorem scroll_tokens_silent_row0 (cw : Nat → Nat) (t : Term) (tok : Tok)
+    (htok : tok = .ctl 10 ∨ tok = .ctl 12 ∨ tok = .esc [] 0x44 ∨
+      ∃ ps, (tok = .csi 0 ps true 0x53 ∨ tok = .csi 0 ps true 0x4d) ∧ 0 ≤ p0 ps 1)
+    (hm : t.onAlt = false) (hinv : t.main.inv = true) (h0 : t.scrollOff cw tok = 0) :
+    (t.apply cw tok).1.main.grid[0]? = t.main.grid[0]? := by
+  obtain ⟨hg, hb⟩ := inv_bot hinv
+  rcases htok with rfl | rfl | rfl | ⟨ps, rfl | rfl, hps⟩
+  · obtain ⟨a, b⟩ := apply_lf cw t hm
+    rw [a]; rw [b] at h0
+    exact lineDown_row0_kept ({ t.main with cx := 0 } : Scr) hg h0
+  · obtain ⟨a, b⟩ := apply_ff cw t hm
+    rw [a]; rw [b] at h0
+    exact lineDown_row0_kept t.main hg h0
+  · obtain ⟨a, b⟩ := apply_ind cw t hm
+    rw [a]; rw [b] at h0
+    exact lineDown_row0_kept t.main hg h0
+  · obtain ⟨a, b⟩ := apply_su cw t ps hm
+    rw [a]; rw [b] at h0
+    exact scroll_row0_kept t.main _ _ _ hg h0 (by omega)
+  · obtain ⟨a, b⟩ := apply_dl cw t ps hm
+    rw [a]; rw [b] at h0
+    split
+    · rw [if_pos ‹_›] at h0
+      exact scroll_row0_kept t.main _ _ _ hg h0 (by omega)
+    · rfl
+
+/-- **C10 (5l) — text on the main buffer.** `put_transcript_rows` for the text token: with the
+    top margin on row 0 and `n` rows announced, every old row `y ≥ n` of the region other than the
+    written one is row `y - n` afterwards. -/
+theorem text_transcript_rows (cw : Nat → Nat) (t : Term) (st : Bytes) (cp : Nat)
+    (hm : t.onAlt = false) (hinv : t.main.inv = true) (ht : t.main.top = 0) :
+    ∀ y, t.scrollOff cw (.text st cp) ≤ y → y ≤ t.main.bot →
+      y ≠ (t.main.putStart (cw cp)).cy + putEarly t.main (cw cp) →
+      (t.apply cw (.text st cp)).1.main.grid[y - t.scrollOff cw (.text st cp)]? = t.main.grid[y]? := by
+  have e1 : (t.apply cw (.text st cp)).1.main = t.main.put t.pol st (cw cp) := by
+    show (t.setScr (t.scr.put t.pol st (cw cp))).main = _
+    rw [setScr_main hm, scr_main hm]
+  have e2 : t.scrollOff cw (.text st cp) = t.main.putOff t.pol (cw cp) := by
+    show (if t.onAlt = true then 0 else t.scr.putOff t.pol (cw cp)) = _
+    rw [hm, scr_main hm]; rfl
+  rw [e1, e2]
+  exact (put_transcript_rows t.pol t.main st (cw cp) hinv ht).1
+
+/-- **C10 (5m) — while the alternate screen is active no row of the main screen changes**, so
+    there is nothing to announce (`scrollOff_alt`). -/
+theorem alt_keeps_main (cw : Nat → Nat) (t : Term) (tok : Tok) (ha : t.onAlt = true) :
+    (t.apply cw tok).1.main.grid = t.main.grid := by
+  by_cases hd : isDecset tok
+  · obtain ⟨ps, fin, rfl, hf⟩ := isDecset_elim hd
+    rw [apply_decset cw t ps fin hf]
+    exact (sg_decModes t _ ps).mg
+  · by_cases ht : ∃ st cp, tok = .text st cp
+    · obtain ⟨st, cp, rfl⟩ := ht
+      show (t.setScr _).main.grid = _
+      unfold Term.setScr; rw [ha]; rfl
+    · have := (stepU_apply_other cw t tok hd (fun st cp h => ht ⟨st, cp, h⟩)).inactive
+      rw [ha] at this
+      simp only [if_true] at this
+      rw [this]
+
+/-! ### non-vacuity -/
+namespace ScrollExamples
+
+/-- every character one cell wide -/
+def cw1 : Nat → Nat := fun _ => 1
+
+/-- 3 × 3 main screen, rows `a`, `b`, `c`, cursor on the bottom row, autowrap on -/
+def m3 : Scr :=
+  { Scr.init 3 3 with
+    grid := [[⟨.ch [0x61] 1, Style.default⟩, blank Style.default, blank Style.default],
+             [⟨.ch [0x62] 1, Style.default⟩, blank Style.default, blank Style.default],
+             [⟨.ch [0x63] 1, Style.default⟩, blank Style.default, blank Style.default]],
+    cy := 2, wrap := true }
+
+def t3 : Term := { Term.init .blank 3 3 with main := m3 }
+
+-- the hypotheses of the token theorems hold
+example : t3.onAlt = false ∧ t3.main.inv = true ∧ t3.main.top = 0 ∧ t3.main.grid.length = t3.main.h := by
+  decide
+
+-- LF on the bottom row of the main screen: one row announced, first event, row `a` is the
+-- announced row and rows `b`, `c` move up
+example : t3.scrollOff cw1 (.ctl 10) = 1 ∧
+    (t3.applyS cw1 (.ctl 10)).2 = [.scrollLines 1, .cursor 0 2] ∧
+    (t3.apply cw1 (.ctl 10)).1.main.grid.take 2 = t3.main.grid.drop 1 := by decide
+
+-- LF elsewhere: nothing announced, nothing lost
+example : ({ t3 with main := { m3 with cy := 1 } } : Term).scrollOff cw1 (.ctl 10) = 0 ∧
+    (({ t3 with main := { m3 with cy := 1 } } : Term).applyS cw1 (.ctl 10)).2 = [.cursor 0 2] := by
+  decide
+
+-- the same LF while the alternate screen is active: nothing announced
+example : ({ t3 with onAlt := true, alt := m3 } : Term).scrollOff cw1 (.ctl 10) = 0 ∧
+    (({ t3 with onAlt := true, alt := m3 } : Term).applyS cw1 (.ctl 10)).2 = [.cursor 0 2] := by
+  decide
+
+-- SU 5 on 3 rows: 3 rows announced (clamped to the region); SU 0: nothing; DL 2 on row 0: 2 rows;
+-- DL on row 2, IL, SD, RI: nothing
+example : t3.scrollOff cw1 (.csi 0 [5] true 0x53) = 3 ∧
+    t3.scrollOff cw1 (.csi 0 [0] true 0x53) = 0 ∧
+    ({ t3 with main := { m3 with cy := 0 } } : Term).scrollOff cw1 (.csi 0 [2] true 0x4d) = 2 ∧
+    t3.scrollOff cw1 (.csi 0 [2] true 0x4d) = 0 ∧
+    t3.scrollOff cw1 (.csi 0 [2] true 0x4c) = 0 ∧
+    t3.scrollOff cw1 (.csi 0 [2] true 0x54) = 0 ∧
+    t3.scrollOff cw1 (.esc [] 0x4d) = 0 := by decide
+
+-- a top margin below row 0: LF on the bottom margin scrolls the region but announces nothing, and
+-- row 0 stays (`scroll_tokens_silent_row0`)
+example :
+    let t : Term := { t3 with main := { m3 with top := 1 } }
+    t.scrollOff cw1 (.ctl 10) = 0 ∧ (t.apply cw1 (.ctl 10)).1.main.grid ≠ t.main.grid ∧
+    (t.apply cw1 (.ctl 10)).1.main.grid[0]? = t.main.grid[0]? := by decide
+
+-- text at the right edge of the bottom row: the late wrap announces one row
+example : ({ m3 with cx := 2 } : Scr).putOff .blank 1 = 1 ∧
+    putEarly ({ m3 with cx := 2 } : Scr) 1 = 0 ∧ putLate .blank ({ m3 with cx := 2 } : Scr) 1 = 1 ∧
+    (Scr.put .blank ({ m3 with cx := 2 } : Scr) [0x78] 1).grid[0]? = m3.grid[1]? := by decide
+
+-- `putOff = 2` is possible: a double-width character on the last column of the bottom row of a
+-- screen 2 columns wide wraps before the write (row `a` leaves) and again after it (row `b` leaves)
+def m2 : Scr :=
+  { Scr.init 2 3 with
+    grid := [[⟨.ch [0x61] 1, Style.default⟩, blank Style.default],
+             [⟨.ch [0x62] 1, Style.default⟩, blank Style.default],
+             [⟨.ch [0x63] 1, Style.default⟩, blank Style.default]],
+    cx := 1, cy := 2, wrap := true }
+
+example : m2.inv = true ∧ m2.top = 0 ∧ m2.putOff .blank 2 = 2 ∧
+    putEarly m2 2 = 1 ∧ putLate .blank m2 2 = 1 ∧ (m2.putStart 2).cy = 2 ∧
+    (Scr.put .blank m2 [0xE5, 0xAD, 0x97] 2).grid =
+      [[⟨.ch [0x63] 1, Style.default⟩, blank Style.default],
+       [⟨.ch [0xE5, 0xAD, 0x97] 2, Style.default⟩, ⟨.cont, Style.default⟩],
+       blankRow 2 Style.default] := by decide
+
+-- the hypothesis `0 ≤ p0 ps 1` of the SU / DL theorems cannot be dropped in the MODEL (the parser
+-- never produces a negative parameter): a negative count scrolls down, row 0 becomes blank and
+-- nothing is announced
+example : t3.scrollOff cw1 (.csi 0 [-1] true 0x53) = 0 ∧
+    (t3.apply cw1 (.csi 0 [-1] true 0x53)).1.main.grid[0]? = some (blankRow 3 Style.default) := by
+  decide
+
+end ScrollExamples
+
+
 #print axioms TM.C10.changes_announced
 #print axioms TM.C10.switch_only_1049
 #print axioms TM.C10.switch_announces_everything
@@ -1983,5 +2778,29 @@ end Examples
 #print axioms TM.C10.notifications_last_stream
 #print axioms TM.C10.resize_last
 #print axioms TM.C10.no_scrollLines_emitted_partial
+#print axioms TM.C10.scrollOff_le
+#print axioms TM.C10.scrollOff_pos_iff
+#print axioms TM.C10.scroll_transcript
+#print axioms TM.C10.scroll_row0_kept
+#print axioms TM.C10.scroll_above_kept
+#print axioms TM.C10.scroll_down_rows
+#print axioms TM.C10.lineDownOff_le_one
+#print axioms TM.C10.lineDownOff_pos_iff
+#print axioms TM.C10.lineDown_transcript
+#print axioms TM.C10.lineDown_row0_kept
+#print axioms TM.C10.putStart_spec
+#print axioms TM.C10.putOff_le_two
+#print axioms TM.C10.putOff_pos_imp
+#print axioms TM.C10.put_transcript_rows
+#print axioms TM.C10.put_off_zero_rows
+#print axioms TM.C10.put_off_one_rows
+#print axioms TM.C10.put_row0_kept
+#print axioms TM.C10.scrollOff_alt
+#print axioms TM.C10.alt_keeps_main
+#print axioms TM.C10.scrollLines_announced_iff
+#print axioms TM.C10.scroll_tokens_transcript
+#print axioms TM.C10.dl_transcript
+#print axioms TM.C10.scroll_tokens_silent_row0
+#print axioms TM.C10.text_transcript_rows
 
 end TM.C10
